@@ -784,6 +784,15 @@ TRIAGE[("C09", "R6", Q + "quantized_linear.get_config",
                 "symmetric=0); q.alpha = 2.0; q([0.3,1.1,-0.7,2.6]) -> "
                 "[0.25,1,-0.75,1.75], quantized_linear(4,1,symmetric=0,"
                 "alpha=2.0) -> [0.5,1,-0.5,2.5]"}
+TRIAGE[("C01", "R2", Q + "quantized_bits.min/max", "does-not-enclose")] = {
+    "what_fails": "legacy quantized_bits with a constant alpha > 1 "
+                  "multiplies its output by alpha, but min() / max() ignore "
+                  "alpha (they return +-max(1, 2**integer)): the outputs "
+                  "leave the reported range (same root as the C02 finding "
+                  "on constant alpha; recorded, not repaired)",
+    "replayed": "real code: quantized_bits(1,0,alpha=2.0)([-0.3,0.7]) -> "
+                "[-2,2] with min()=-1, max()=1; quantized_bits(4,0,alpha=2.0)"
+                "([-3,3]) -> [-2,1.75] with min()=-1, max()=1"}
 _ADD = "qkeras/qtools/quantized_operators/multiplier_impl.py::Adder"
 for _k in (("max", "both-capped", "mixed-sign"), ("max", "no-cap", "mixed-sign"),
            ("max", "one-sided-cap", "mixed-sign"),
